@@ -9,7 +9,7 @@ _spec.loader.exec_module(_m)
 META = {
     "level": "model_checking",
     "technique": "TLA+ model of the pool/swarm lifecycle model-checked with TLC (+canary); traces of a real Swarm over a puppet transport validated by TLC against the property-level trace spec TraceSwarmConn (PROP=C06 guards)",
-    "text": 'Same model (DeniedFinal invariant + spawn-despite-denial canary). Conformance: a #[derive(NetworkBehaviour)] struct of three probe behaviours answers each of the four decision callbacks from the schedule (random deny at pending/established stage per field); TLC checks that an id denied by any field is never reported established, never shows up in counters, produces no IncomingConnection event after a pending-stage denial and ends with exactly one failure.',
+    "text": 'Same model (DeniedFinal invariant + spawn-despite-denial canary). Conformance: a #[derive(NetworkBehaviour)] struct of three probe behaviours answers each of the four decision callbacks from the schedule (random deny at pending/established stage per field), for dials made by the application, inbound connections and dials requested by a behaviour through ToSwarm::Dial; TLC checks that an id denied by any field is never reported established, never shows up in counters, produces no IncomingConnection event after a pending-stage denial and ends with exactly one failure.',
     "note": "handler creation is observed through the probe behaviours' handle_established_* callbacks and the counters",
     "design_ref": "6/C06",
 }
